@@ -112,6 +112,16 @@ func runC16(t *testing.T, tape *sim.Tape, tier string) *Outcome {
 		for i := 0; i < n; i++ {
 			op := genStrOp(tape, nkeys, j, i, intKeys)
 			ops[j] = append(ops[j], op)
+			if tape.Draw(8, "nested") == 7 {
+				// the same command framed as an array nested in a one-element array (accepted by the server)
+				var bs []resp.Value
+				for _, a := range op.Args() {
+					bs = append(bs, resp.Bs(a))
+				}
+				items = append(items, resp.Ar(resp.Ar(bs...)).Encode())
+				o.stat("commands_framed_as_nested_array", 1)
+				continue
+			}
 			items = append(items, resp.Cmd(op.Args()...))
 		}
 		c := cl.addClient(fmt.Sprintf("cli%d", j), addr, items)
@@ -191,7 +201,7 @@ func init() {
 	register(&Check{
 		ID: "C16", Bubble: true, Run: runC16,
 		Runs:   map[string]int{"quick": 30000, "thorough": 1000000},
-		Rule:   "a case is one concurrent history: 2..4 (thorough ..8) lock-step clients x 1..4 (thorough ..6) operations over 1..3 keys from GET/SET/SETNX/GETSET/INCR/DECR/INCRBY/DECRBY/APPEND/MSETNX/DEL with unique written values, against the reference store (every handler-call entry is a scheduling point) or the bundled example store (every record access is a scheduling point); one history in six is cut by a Restart at a seed-chosen moment (operations in flight stay pending, 1..2 clients of the restarted server follow); invocation/response stamped with global event sequence numbers; checked with porcupine against a sequential string model; distinct = distinct event-log hashes; non-trivial = at least two operations",
+		Rule:   "a case is one concurrent history: 2..4 (thorough ..8) lock-step clients x 1..4 (thorough ..6) operations over 1..3 keys from GET/SET/SETNX/GETSET/INCR/DECR/INCRBY/DECRBY/APPEND/MSETNX/DEL with unique written values (one command in eight framed as an array nested in a one-element array), against the reference store (every handler-call entry is a scheduling point) or the bundled example store (every record access is a scheduling point); one history in six is cut by a Restart at a seed-chosen moment (operations in flight stay pending, 1..2 clients of the restarted server follow); invocation/response stamped with global event sequence numbers; checked with porcupine against a sequential string model; distinct = distinct event-log hashes; non-trivial = at least two operations",
 		Real:   []string{"redis.Server accept loop, connection goroutines, dispatch, string executors and derived commands", "examples/go-redisd/server string store (half of the runs)"},
 		Stub:   []string{"network: simulated", "handler (other half): reference store with atomic primitives", "oracle: porcupine v1.3.0 + sequential string model"},
 		Assume: []string{"histories are capped at 48 operations; porcupine timeouts (10 s) are counted as inconclusive and never reported"},
